@@ -41,7 +41,11 @@ func genMixedPair() (*spec.Schema, interface{}) {
 		d = []interface{}{"", "ab", "ba", nil}[verifChoose(4)]
 	case 2: // objects
 		s.Type = spec.StringOrArray{"object"}
-		s.Properties = map[string]spec.Schema{"a": genLeafSmall(), "b": strSchema("date", -1)}
+		pa := genLeafSmall()
+		if verifBool() {
+			pa.Default = 1.0 // an absent member with a default is exempt from "required"
+		}
+		s.Properties = map[string]spec.Schema{"a": pa, "b": strSchema("date", -1)}
 		if verifBool() {
 			s.Required = []string{"a"}
 		}
@@ -143,7 +147,13 @@ func HarnessC04Recycle() {
 // borrows from several pools at once (results, schema/props/string/format/number/object validators).
 func genProbePair() (*spec.Schema, interface{}) {
 	s := spec.Schema{}
-	switch verifChoose(3) {
+	switch verifChoose(4) {
+	case 3: // two object validators alive one after the other: a nested object with a required member
+		inner := spec.Schema{}
+		inner.Required = []string{"a"}
+		inner.Properties = map[string]spec.Schema{"b": {}}
+		s.Properties = map[string]spec.Schema{"o": inner}
+		return &s, map[string]interface{}{"o": map[string]interface{}{"b": 1.0}}
 	case 0:
 		s.AllOf = []spec.Schema{strSchema("date", -1), strSchema("email", -1)}
 		return &s, "2020-01-01"
@@ -229,12 +239,11 @@ func HarnessC11Panic() {
 	first := guarded(func() verifOutcome { return outcomeOfError(AgainstSchema(s, d, reg)) })
 	verifObserve("panicked", first.panicked)
 	verifKF("C11-KF-PANIC-REDEEM", first.panicked)
-	// later validation: two live borrowers of the same pools (allOf of two string formats)
-	s2 := spec.Schema{}
-	s2.AllOf = []spec.Schema{strSchema("date", -1), strSchema("email", -1)}
+	// later validation: a probe that borrows from several pools at once
+	s2, d2 := genProbePair()
 	reg2 := &verifRegistry{}
-	got := outcomeOfError(AgainstSchema(&s2, "2020-01-01", reg2))
-	fresh := runFresh(&s2, "2020-01-01", reg2)
+	got := outcomeOfError(AgainstSchema(s2, d2, reg2))
+	fresh := runFresh(s2, d2, reg2)
 	verifAssert(verifIff(got.valid, fresh.valid), "later-validation-verdict-equals-fresh")
 	verifAssert(verifSameSet(got.errs, fresh.errs), "later-validation-errors-equal-fresh")
 	verifReach("end")
@@ -286,6 +295,34 @@ func errorNames(es []error) []string {
 	return out
 }
 
+// locationsOf lists the names that designate an existing location of the instance (the root, its
+// members and indices, recursively) or a missing member listed in required of an existing object.
+func locationsOf(root string, d interface{}, required []string) []string {
+	out := []string{root}
+	join := func(p string) string {
+		if root == "" {
+			return p
+		}
+		return root + "." + p
+	}
+	switch x := d.(type) {
+	case map[string]interface{}:
+		for k, v := range x {
+			out = append(out, locationsOf(join(k), v, required)...)
+		}
+		for _, r := range required {
+			out = append(out, join(r))
+		}
+	case []interface{}:
+		for i, v := range x {
+			out = append(out, locationsOf(join(itoa(i)), v, required)...)
+		}
+	}
+	return out
+}
+
+func itoa(i int) string { return string(rune('0' + i)) }
+
 // HarnessC17Location: exactly one leaf of a nested instance violates its schema; some error must be
 // named root + the path of that leaf (or of the missing required member).
 func HarnessC17Location() {
@@ -303,7 +340,7 @@ func HarnessC17Location() {
 		}
 		return root + "." + p
 	}
-	switch verifChoose(6) {
+	switch verifChoose(8) {
 	case 0: // properties
 		s.Properties = map[string]spec.Schema{"x": leaf, "y": leaf}
 		d = map[string]interface{}{"x": good, "y": bad}
@@ -327,6 +364,12 @@ func HarnessC17Location() {
 		s.Properties = map[string]spec.Schema{"o": inner}
 		d = map[string]interface{}{"o": map[string]interface{}{"other": good}}
 		want = join("o.need")
+	case 6: // a member matched by two pattern properties, failing both (different messages)
+		other := schemaOfType("number")
+		other.MultipleOf = ptrF(7)
+		s.PatternProperties = map[string]spec.Schema{"^p": leaf, "1$": other}
+		d = map[string]interface{}{"p1": bad, "q2": good}
+		want = join("p1")
 	default: // two levels: property holding a tuple
 		arr := spec.Schema{}
 		arr.Items = &spec.SchemaOrArray{Schemas: []spec.Schema{leaf, leaf}}
@@ -350,5 +393,17 @@ func HarnessC17Location() {
 	verifObserve("want", want)
 	verifObserve("names", names)
 	verifAssert(found, "an-error-names-the-offending-member")
+	// every field-level error is named by the root path or an extension of it that designates an
+	// existing location of the instance (or the missing required member)
+	locs := locationsOf(root, d, []string{"need"})
+	for _, n := range names {
+		okn := false
+		for _, l := range locs {
+			if n == l || (root == "" && n == "."+l) {
+				okn = true
+			}
+		}
+		verifAssert(okn, "every-error-name-designates-a-location-of-the-instance")
+	}
 	verifReach("end")
 }
